@@ -76,7 +76,7 @@ fn check(s: &Shape, case: &str, rep: &mut Report) {
 pub fn run(ctx: &Ctx) -> Report {
     let grid = if cfg!(miri) { 3 } else { 8 };
     let mp_max = if cfg!(miri) { 6 } else { 64 };
-    let n_rand = if cfg!(miri) { 2 } else { ctx.pick(200, 3000) };
+    let n_rand = if cfg!(miri) { 2 } else { ctx.pick(600, 6000) };
     // enumerate the work items: (type, parts, len) grid + random larger shapes
     let mut items: Vec<(i32, usize, usize, u64)> = vec![];
     for &t in &TYPES {
